@@ -7,6 +7,19 @@ _A_NOTE = ('Trusted: CrossHair 0.0.110 proxy semantics and path pruning, z3 5.1.
            'before a VIOLATION is printed.')
 
 CLAIMS = {
+    'C08': dict(
+        engine='A-crosshair',
+        technique='bounded symbolic execution of the real code (CrossHair + z3) against an independent path enumerator',
+        text=('For every member of the structure family (positional-argument Buildable root or plain dict / list root; '
+              'defaultdict, named tuple, empty containers, interned tuple of literals, user-registered node type with '
+              'temporaries, shared lists; child targets solver-enumerated; six wrapper kinds; symbolic int leaves) and '
+              'each of ten traversal APIs: every reported (value, path) satisfies follow_path(root, path) is value, '
+              'un-memoized traversals report exactly the independently enumerated paths once each, memoized ones visit '
+              'every distinct mutable object exactly once, collect_paths_by_id / get_all_paths / legacy all-paths equal '
+              'the independent all-paths relation, an identity rebuild under MemoizedTraversal has the same canonical '
+              'form (types, default_factory, sharing) and shares no mutable object with its input, the input is never '
+              'modified, and cyclic inputs make the memoized traversals raise an ordinary error.'),
+        note=_A_NOTE + ' Un-memoized traversals on cyclic inputs (RecursionError today) are outside the claim.'),
     'C07': dict(
         engine='A-crosshair',
         technique='bounded symbolic execution of the real code (CrossHair + z3); canonical-form and identity-set comparison',
